@@ -253,7 +253,11 @@ func runUpd(c map[string]any, ev map[string]any) error {
 		{Login: "x", Name: "X", Password: "xp"},
 	}})
 	if err != nil {
-		return err
+		// the world's own self-check failed (accounts without privileges did not load as such): recorded, the
+		// trace specification reports that the case did not run; the file-level cases of the same run are judged
+		ev["reply"], ev["live"], ev["n354"] = "noworld: "+err.Error(), false, 0
+		ev["lwire"], ev["uwire"], ev["dauth"], ev["disk"] = []int{}, []int{}, []int{}, []int{}
+		return nil
 	}
 	defer w.Close()
 	if err := setAccess(w, "adm", sim.AllAccess()); err != nil {
